@@ -219,16 +219,34 @@ def rule_compact(ctx):
         vec = [l for l in range(len(b.locals)) if b.local_ty(l) == 'std::vec::Vec<u8>' and any(d[0] == 'call' and mir.method_name(d[2].name) == 'with_capacity' for d in b.defs().get(l, []))]
         seq = [(s[1], s[2]) for s in util.builder_sequence(b, vec[0])] if vec else []
         ctx.check('compact', 'from<%s>:buf=marker||le' % ty, seq == [('push', [str(marker)]), ('extend', ['to_le_bytes(a1)'])], b, 'buf = %s' % seq)
-        val = canon(b.ret_expr())
+        val = canon(prog.inline(b.ret_expr()))
         wide = 'a1' if ty == 'u64' else '(a1 as u64)'
-        ctx.check('compact', 'from<%s>:value-widened' % ty, val == 'new(%s, with_capacity(%d))' % (wide, cap), b, val)
+        ctx.check('compact', 'from<%s>:value-widened' % ty, val == 'VarUint::VarUint{value: %s, buf: with_capacity(%d)}' % (wide, cap), b, val)
         tl = [c for c in b.calls if mir.method_name(c.name) == 'to_le_bytes']
         ctx.check('compact', 'from<%s>:le-bytes-of-same-width' % ty, len(tl) == 1 and 'impl %s' % ty in tl[0].name, b, tl[0].name if tl else '?')
     b8 = prog.one('<blockchain::proto::varuint::VarUint as std::convert::From<u8>>::from')
     ctx.touch(b8)
-    ctx.check('compact', 'from<u8>:buf=[value]', vec_literal(b8) == ['a1'] and canon(b8.ret_expr()).startswith('new((a1 as u64), '), b8, 'buf = vec!%s' % vec_literal(b8))
-    nw = prog.one('VarUint::new')
-    ctx.check('compact', 'new', canon(nw.ret_expr()) == 'VarUint::VarUint{value: a1, buf: a2}', nw, canon(nw.ret_expr()))
+    ctx.check('compact', 'from<u8>:buf=[value]', vec_literal(b8) == ['a1'] and canon(prog.inline(b8.ret_expr())).startswith('VarUint::VarUint{value: (a1 as u64), '), b8, 'buf = vec!%s' % vec_literal(b8))
+    # every VarUint value is built by a From impl, directly or through a private constructor that stores its
+    # arguments unchanged
+    built = []
+    for bd in prog.bodies.values():
+        for bi in bd.live:
+            for st in bd.blocks[bi]['stmts']:
+                if st['k'] == 'assign' and st['rv']['k'] == 'aggr' and st['rv'].get('akind') == 'adt' and st['rv'].get('adt', '').endswith('varuint::VarUint'):
+                    built.append((bd, canon(bd.rvalue_expr(st['rv']))))
+    okb = bool(built)
+    for bd, c in built:
+        ctx.touch(bd)
+        if bd.impl_trait and bd.impl_trait.startswith('std::convert::From<') and bd.impl_self and bd.impl_self.endswith('VarUint'):
+            continue
+        if c == 'VarUint::VarUint{value: a1, buf: a2}':
+            continue
+        if bd.impl_trait == 'std::clone::Clone' and c == 'VarUint::VarUint{value: self.value, buf: self.buf}':
+            continue
+        okb = False
+        ctx.note('VarUint built in %s as %s' % (bd.path, c))
+    ctx.check('compact', 'constructors', okb, None, 'VarUint values are built in %s' % sorted(set(x[0].path.split('::')[-2] + '::' + x[0].path.split('::')[-1] for x in built)))
     tb = prog.one('<blockchain::proto::varuint::VarUint as blockchain::proto::ToRaw>::to_bytes')
     ctx.check('compact', 'to_bytes=original-encoding', canon(tb.ret_expr()) == 'self.buf', tb, 'to_bytes() = buf.clone()')
     wr = [(b.path, ch) for b in prog.bodies.values() if b.impl_self and b.impl_self.endswith('VarUint') for bb, ch, v, s in util.self_field_stores(b)]
@@ -357,22 +375,36 @@ def rule_cols(ctx):
                 g = [x for x in util.guards_at(b, d[1]) if 'Level' not in x]
                 if v == 'new()':
                     ctx.check('cols', 'tx_out:address-empty-iff-none', any(x.endswith('is None') for x in g), (b, d[1]), 'empty address under %s' % g)
-    # hex renderer
+    # hex renderer: two accepted shapes — a fold over the slice whose closure writes one byte and returns the
+    # accumulator, or a loop over the slice writing each byte to the returned String
     ah = prog.one('utils::arr_to_hex')
     ctx.touch(ah)
-    ctx.check('cols', 'hex:fold-over-all-bytes', canon(ah.ret_expr()) == 'fold(a1, with_capacity((len(a1) * 2)), closure:{closure#0})', ah, canon(ah.ret_expr()))
-    cl = prog.one('utils::arr_to_hex::{closure#0}')
-    ctx.touch(cl)
-    fs = mir.fmt_sites(cl)
+    rc = canon(ah.ret_expr())
+    m = re.match(r'^fold\(a1, (with_capacity\(.*\)|new\(\)), closure:(\{closure#\d+\})\)$', rc)
+    if m:
+        cl = prog.one('utils::arr_to_hex::' + m.group(2))
+        ctx.touch(cl)
+        ctx.check('cols', 'hex:fold-over-all-bytes', True, ah, rc)
+        wbody, item, acc = cl, 'a3', 'a2'
+        acc_ok = canon(cl.ret_expr()) == 'a2'
+    else:
+        wbody, item = ah, 'each(a1)'
+        fs0 = mir.fmt_sites(ah)
+        in_loop = len(fs0) == 1 and ah.loop_depth(fs0[0].cs.bb) == 1 and [canon(x) for x in util.loop_bounds(ah, fs0[0].cs.bb) if x is not None] == ['a1']
+        ctx.check('cols', 'hex:fold-over-all-bytes', bool(in_loop) and re.match(r'^(with_capacity\(.*\)|new\(\))$', rc) is not None, ah,
+                  'loop over the whole slice appending to the returned String (%s)' % rc)
+        acc = rc
+        acc_ok = True
+    fs = mir.fmt_sites(wbody)
     okh = len(fs) == 1 and fs[0].literal_skeleton == '{}' and len(fs[0].args) == 1
     if okh:
         a = fs[0].args[0]
         sp = a[2]
-        okh = a[1] in ('Debug', 'LowerHex') and sp['width'] == 2 and 'zero_pad' in sp['flags'] and (a[1] == 'LowerHex' or 'debug_lower_hex' in sp['flags']) and canon(a[3]) == 'a3' and 'debug_upper_hex' not in sp['flags']
-    ctx.check('cols', 'hex:two-lowercase-digits-per-byte', okh, cl, 'per byte: {:02x} (%s)' % ([(p[1], p[2]['flags'], p[2]['width']) for p in fs[0].args] if fs else '?'))
-    ctx.check('cols', 'hex:appends-to-accumulator', canon(cl.ret_expr()) == 'a2', cl, 'closure returns the accumulator')
-    wf = [c for c in cl.calls if mir.method_name(c.name) == 'write_fmt']
-    ctx.check('cols', 'hex:writes-into-accumulator', len(wf) == 1 and canon(cl.op_expr(wf[0].args[0])) == 'a2', cl, 'write!(output, ..)')
+        okh = a[1] in ('Debug', 'LowerHex') and sp['width'] == 2 and 'zero_pad' in sp['flags'] and (a[1] == 'LowerHex' or 'debug_lower_hex' in sp['flags']) and canon(a[3]) == item and 'debug_upper_hex' not in sp['flags']
+    ctx.check('cols', 'hex:two-lowercase-digits-per-byte', okh, wbody, 'per byte: {:02x} (%s)' % ([(p[1], p[2]['flags'], p[2]['width']) for p in fs[0].args] if fs else '?'))
+    ctx.check('cols', 'hex:appends-to-accumulator', acc_ok, wbody, 'the accumulator is what is returned')
+    wf = [c for c in wbody.calls if mir.method_name(c.name) == 'write_fmt']
+    ctx.check('cols', 'hex:writes-into-accumulator', len(wf) == 1 and canon(wbody.op_expr(wf[0].args[0])) == acc, wbody, 'write!(output, ..)')
     # types of integer/hash columns
     bh = dict(prog.adt_fields('blockchain::proto::header::BlockHeader') or [])
     ctx.check('cols', 'types:header', [bh.get(x) for x in ('version', 'timestamp', 'bits', 'nonce')] == ['u32'] * 4 and 'sha256d::Hash' in bh.get('prev_hash', '') and 'sha256d::Hash' in bh.get('merkle_root', ''), None, 'header field types %s' % bh)
